@@ -320,6 +320,106 @@ func init() {
 				return out.Emit()
 			}
 		}
+		// volume: several hundred certificates with pairwise distinct names (internationalised labels among them) linted from
+		// eight goroutines while a few reference certificates are linted again and again - whatever the library remembers
+		// about names it has seen (a bounded memo recycles its slots only after hundreds of distinct keys) must not change
+		// what the same call reports alone
+		{
+			refNames := [][]string{{"xn--ex-8tb.example.com"}, {"xn--caf-dma.com", "www.xn--caf-dma.com"}, {"xn--bad!.example.com", "plain.example.com"}, {"xn--mnchen-3ya.example.org"}}
+			type refT struct {
+				der   []byte
+				alone map[string]resKey
+			}
+			var refs []refT
+			for _, dn := range refNames {
+				t := leafTemplate()
+				t.DNSNames, t.Subject.CommonName = dn, dn[0]
+				if der, c, err := issue(t, nil); err == nil {
+					a, b := resultsOf(zlint.LintCertificate(c)), resultsOf(zlint.LintCertificate(c))
+					for n, v := range a {
+						if b[n] != v {
+							delete(a, n)
+						}
+					}
+					refs = append(refs, refT{der, a})
+				}
+			}
+			nChurn := 340
+			if tier() == "thorough" {
+				nChurn = 1500
+			}
+			var churn [][]byte
+			alpha := "abcdefghijklmnopqrstuvwxyz0123456789"
+			for i := 0; i < nChurn; i++ {
+				lab := make([]byte, 6)
+				x := i*7919 + 13
+				for j := range lab {
+					lab[j] = alpha[x%len(alpha)]
+					x /= len(alpha)
+				}
+				t := leafTemplate()
+				name := fmt.Sprintf("xn--%s-%da.example.com", lab, i%7)
+				t.DNSNames, t.Subject.CommonName = []string{name, fmt.Sprintf("h%d.xn--%s.example.net", i, lab)}, name
+				if der, _, err := issue(t, nil); err == nil {
+					churn = append(churn, der)
+				}
+			}
+			var wg sync.WaitGroup
+			var mu sync.Mutex
+			var diffs []string
+			for w := 0; w < 8; w++ {
+				wg.Add(1)
+				go func(id int) {
+					defer wg.Done()
+					defer func() {
+						if p := recover(); p != nil {
+							mu.Lock()
+							diffs = append(diffs, fmt.Sprintf("panic: %v", p))
+							mu.Unlock()
+						}
+					}()
+					for i := id; i < len(churn); i += 8 {
+						if c, err := x509.ParseCertificate(churn[i]); err == nil {
+							zlint.LintCertificate(c)
+						}
+						if i%16 == id && len(refs) > 0 {
+							r := refs[(i/16)%len(refs)]
+							if c, err := x509.ParseCertificate(r.der); err == nil {
+								got := resultsOf(zlint.LintCertificate(c))
+								for n, v := range r.alone {
+									if got[n] != v {
+										mu.Lock()
+										if len(diffs) < 6 {
+											diffs = append(diffs, fmt.Sprintf("%s on the reference certificate with names %v: %v alone, %v while %d certificates with other names are linted", n, c.DNSNames, v, got[n], len(churn)))
+										}
+										mu.Unlock()
+										break
+									}
+								}
+							}
+						}
+					}
+				}(w)
+			}
+			wg.Wait()
+			// and once more after the churn, alone again
+			for _, r := range refs {
+				if c, err := x509.ParseCertificate(r.der); err == nil {
+					got := resultsOf(zlint.LintCertificate(c))
+					for n, v := range r.alone {
+						if got[n] != v && len(diffs) < 8 {
+							diffs = append(diffs, fmt.Sprintf("%s on the reference certificate with names %v: %v before, %v after %d certificates with other names were linted", n, c.DNSNames, v, got[n], len(churn)))
+							break
+						}
+					}
+				}
+			}
+			total += len(churn)
+			out.Stats["distinct_name_churn"] = len(churn)
+			for _, d := range diffs {
+				out.Violate("C10|volume-of-distinct-names-differs", d, map[string]interface{}{"churn_certificates": len(churn), "goroutines": 8, "how": "harness c10: reference certificates linted alone, then while 8 goroutines lint certificates with pairwise distinct (internationalised) names"}, nil, nil)
+			}
+		}
 		// heavy objects under processor oversubscription: a revocation list as large as big issuers publish (a repeated
 		// serial number near its end, the smallest serial last) linted by 16 goroutines on one processor, each on its own
 		// parsed copy - a call that gets a sixteenth of a processor reports what the same call reports alone
